@@ -92,13 +92,75 @@ def bands(depth, depth_ho):
     return out
 
 
+# --- independent dequantisation, DC prediction and slice geometry, written from the standard (13.3, 13.4, 13.5.6) --
+# (the comparison must not borrow the project's own helpers: a slip in one of them would then be invisible)
+def _quant_factor(i):
+    base = 2 ** (i // 4)
+    r = i % 4
+    if r == 0:
+        return 4 * base
+    if r == 1:
+        return (503829 * base + 52958) // 105917
+    if r == 2:
+        return (665857 * base + 58854) // 117708
+    return (440253 * base + 32722) // 65444
+
+
+def _quant_offset(i):
+    if i == 0:
+        return 1
+    if i == 1:
+        return 2
+    return (_quant_factor(i) + 1) // 2
+
+
+def _inverse_quant(q, i):
+    m = abs(q)
+    if m != 0:
+        m = (m * _quant_factor(i) + _quant_offset(i) + 2) // 4
+    return m if q > 0 else -m
+
+
+def _dc_prediction(band):
+    for y in range(len(band)):
+        for x in range(len(band[0])):
+            if x > 0 and y > 0:
+                t = band[y][x - 1] + band[y - 1][x - 1] + band[y - 1][x] + 1
+                pred = t // 3          # floor, also for negative sums
+            elif x > 0:
+                pred = band[0][x - 1]
+            elif y > 0:
+                pred = band[y - 1][0]
+            else:
+                pred = 0
+            band[y][x] += pred
+
+
 def rebuild(snap, tp, slices, code):
-    """dequantise and DC-predict the DESERIALISED coefficients with the real pseudocode helpers"""
-    from vc2_conformance.pseudocode.state import State
-    from vc2_conformance.pseudocode.slice_sizes import slice_left, slice_right, slice_top, slice_bottom
-    from vc2_conformance.pseudocode.quantization import inverse_quant
-    from vc2_conformance.decoder.transform_data_syntax import dc_prediction
+    """dequantise and DC-predict the DESERIALISED coefficients independently of the project's helpers"""
     from vc2_data_tables import QUANTISATION_MATRICES
+
+    inverse_quant, dc_prediction = _inverse_quant, _dc_prediction
+    tname_of = {"Y": "y_transform", "C1": "c1_transform", "C2": "c2_transform"}
+
+    def dims(comp, lv, o):
+        band = snap[tname_of[comp]][lv][o]
+        return len(band[0]) if band else 0, len(band)
+
+    def orient0(lv):
+        return ("LL" if depth_ho == 0 else "L") if lv == 0 else ("H" if lv <= depth_ho else "HL")
+
+    def slice_left(st, sx, comp, lv):
+        return (dims(comp, lv, orient0(lv))[0] * sx) // snap["slices_x"]
+
+    def slice_right(st, sx, comp, lv):
+        return (dims(comp, lv, orient0(lv))[0] * (sx + 1)) // snap["slices_x"]
+
+    def slice_top(st, sy, comp, lv):
+        return (dims(comp, lv, orient0(lv))[1] * sy) // snap["slices_y"]
+
+    def slice_bottom(st, sy, comp, lv):
+        return (dims(comp, lv, orient0(lv))[1] * (sy + 1)) // snap["slices_y"]
 
     depth, depth_ho = tp["dwt_depth"], tp.get("extended_transform_parameters", {}).get("dwt_depth_ho", 0)
     etp = tp.get("extended_transform_parameters", {})
@@ -115,9 +177,7 @@ def rebuild(snap, tp, slices, code):
             qm.setdefault(lv, {})[o] = v
     else:
         qm = QUANTISATION_MATRICES[(wi, wiho, depth, depth_ho)]
-    st = State(luma_width=snap["luma_width"], luma_height=snap["luma_height"], color_diff_width=snap["color_diff_width"],
-               color_diff_height=snap["color_diff_height"], dwt_depth=depth, dwt_depth_ho=depth_ho,
-               slices_x=snap["slices_x"], slices_y=snap["slices_y"])
+    st = None
     out = dict((t, copy.deepcopy(snap[t])) for t in ("y_transform", "c1_transform", "c2_transform"))
     for t in out.values():  # blank the arrays: every coefficient must be written from the deserialised data
         for lv in t:
